@@ -285,7 +285,7 @@ class World:
             need = fr['nup'] + fr['ndown'] + 4 + 2
             if self.tail_acked >= need:
                 self.done = True
-        if self.ntx >= len(fr['outcomes']) + 2000 and not self.done:   # something is wedged: end the run (not quiet)
+        if self.ntx >= len(fr['outcomes']) + fr['nup'] + fr['ndown'] + 300 and not self.done:   # something is wedged: end the run (not quiet)
             self.done = True
             self.wedged = True
 
